@@ -1071,7 +1071,7 @@ Proof.
   - apply existsb_exists in He. destruct He as (s & Hin & Ht). exists s. split; [exact Hin|].
     unfold topic_site in Ht. apply String.eqb_eq. exact Ht.
   - intros s Hin Hr. rewrite forallb_forall in Hf. specialize (Hf s Hin). unfold site_ok, topic_site in Hf.
-    rewrite Hr, String.eqb_refl in Hf. apply existsb_exists in Hf. destruct Hf as (c & Hc & Heq).
+    rewrite Hr in Hf. cbn [String.eqb Ascii.eqb Bool.eqb] in Hf. apply existsb_exists in Hf. destruct Hf as (c & Hc & Heq).
     apply String.eqb_eq in Heq. subst c. exact Hc.
 Qed.
 
